@@ -788,14 +788,15 @@ class CallMixin:
         k = self.path.choose(len(outcomes), oc, label=f"call:{c.short}")
         kind, en = outcomes[k]
         self.called.add(c.target)
-        # effect_names() / effect_arg() inside the callee's contract speak about the effects of
-        # *this call* only, not about what the caller did before it
-        saved_base = getattr(self, "effects_base", 0)
-        self.effects_base = len(self.path.effects)
+        # effect_names() / effect_arg() inside a callee's postcondition are obligations on the
+        # callee's body, not facts for its callers (callers learn effects from `effects=` only):
+        # they evaluate to an unconstrained value here
+        saved = getattr(self, "effects_opaque", False)
+        self.effects_opaque = True
         try:
             return self._call_contract_outcome(c, kind, en, bound, values, old_heap, old_env)
         finally:
-            self.effects_base = saved_base
+            self.effects_opaque = saved
 
     def _call_contract_outcome(self, c, kind, en, bound, values, old_heap, old_env):
         for eff in c.effects:  # the call happened, whatever its outcome
